@@ -36,7 +36,7 @@ const (
 )
 
 // goroutines re-synchronise every burstSync keys
-const burstSync = 8
+const burstSync = 2
 
 type burstSpec struct {
 	Variant string  `json:"variant"`
@@ -273,7 +273,7 @@ func genBurst(rnd *rand.Rand, variant string, wide bool) burstSpec {
 	if rnd.Intn(4) == 0 {
 		s.KK = kkString
 	}
-	ng := 6 + rnd.Intn(11)
+	ng := 8 + rnd.Intn(9)
 	nk := 24 + rnd.Intn(56)
 	lo := int64(1 + rnd.Intn(1000))
 	need := int64(0)
@@ -286,15 +286,18 @@ func genBurst(rnd *rand.Rand, variant string, wide bool) burstSpec {
 		s.Sizes = append(s.Sizes, sz)
 		need += sz
 	}
-	mix := rnd.Intn(4) // 0: SetIfAbsent only; 1,2: writes and reads; 3: with Delete
+	mix := rnd.Intn(4) // 0: the dominant call only; 1,2: writes and reads; 3: with Delete
+	dominant := []int{bSetIfAbsent, bSetIfAbsent, bSetIfAbsent, bSetAndGetRemoved, bSetAndGetRemoved, bSet}[rnd.Intn(6)]
 	for g := 0; g < ng; g++ {
 		row := make([]int, nk)
 		for j := range row {
 			r := rnd.Intn(100)
 			switch {
 			case mix == 0 || r < 62:
+				row[j] = dominant
+			case r < 70:
 				row[j] = bSetIfAbsent
-			case r < 74:
+			case r < 76:
 				row[j] = bSet
 			case r < 82:
 				row[j] = bSetAndGetRemoved
